@@ -425,6 +425,7 @@ func parseSteps(args string) []step {
 
 func child(a lib.Args) {
 	d := newDrv()
+	mainDrv = d
 	if a.Replay != "" {
 		for _, l := range lib.ReplayLines(a.Replay) {
 			switch l[0] {
